@@ -32,6 +32,9 @@ CHECKS={
  "C08":("model_checking",E1,"bounded-exhaustive exploration of record-length sequences against a reference partition",
         "All sequences of line lengths over {1,2,N-1,N,N+1,3N} up to depth 3-4 (quick) / 5-6 (thorough) for N in {0,1,10,25} x write modes (direct, buffered below/at/above N, async) x naming x start state (fresh / append onto 0,N-1,N,N+1,2N bytes) x Size|AgeOrSize x LF|CRLF run on the real logger; the files in age order must equal the partition predicted by `if cur > N {rotate}`.",
         "Virtual clock frozen; observation after shutdown(); values of N and capacities limited to the boundary-placed ones.","4 C08"),
+ "C19":("fault_enumeration",E1,"exhaustive fault-placement enumeration (every file-system call site x occurrence x burst, plus second-order pairs) on the real logger",
+        "A fault-free run of the history W W W5 W W R W W W records the trace of guarded file-system points; then every (site, occurrence) x burst 1..3 and every pair of single faults at different sites is executed with the early-error hook failing exactly those calls, for naming x cleanup x {Direct, buffered} x 0/1 earlier run. Oracle: no panic or hang; every operation that hit a fault wrote to the error channel (or returned Err); only records whose own write failed (or that hit a failing initialisation) may be missing, all others exactly once and in order; faults that hit only cleanup steps do not change at which operations files are opened; after the faults clear and three more rotations the count limits hold and the newest record is last.",
+        "Injected failure = call has no effect and returns PermissionDenied; symlink and listing sites cannot be failed (handled / unwrapped in place); cleanup in the logging thread.","4 C19"),
 }
 checks=[]
 for i,(lvl,eng,tech,text,note,ref) in CHECKS.items():
